@@ -13,33 +13,61 @@ fn main() {
     vx::install_panic_hook();
     let cli = vx::parse_cli();
     let (built, run) = match cli.id.as_str() {
+        #[cfg(feature = "c01")]
         "C01" => (props::c01::BUILT, props::c01::run as fn(&mut vx::Report)),
+        #[cfg(feature = "c02")]
         "C02" => (props::c02::BUILT, props::c02::run as fn(&mut vx::Report)),
+        #[cfg(feature = "c03")]
         "C03" => (props::c03::BUILT, props::c03::run as fn(&mut vx::Report)),
+        #[cfg(feature = "c04")]
         "C04" => (props::c04::BUILT, props::c04::run as fn(&mut vx::Report)),
+        #[cfg(feature = "c05")]
         "C05" => (props::c05::BUILT, props::c05::run as fn(&mut vx::Report)),
+        #[cfg(feature = "c06")]
         "C06" => (props::c06::BUILT, props::c06::run as fn(&mut vx::Report)),
+        #[cfg(feature = "c07")]
         "C07" => (props::c07::BUILT, props::c07::run as fn(&mut vx::Report)),
+        #[cfg(feature = "c08")]
         "C08" => (props::c08::BUILT, props::c08::run as fn(&mut vx::Report)),
+        #[cfg(feature = "c09")]
         "C09" => (props::c09::BUILT, props::c09::run as fn(&mut vx::Report)),
+        #[cfg(feature = "c10")]
         "C10" => (props::c10::BUILT, props::c10::run as fn(&mut vx::Report)),
+        #[cfg(feature = "c11")]
         "C11" => (props::c11::BUILT, props::c11::run as fn(&mut vx::Report)),
+        #[cfg(feature = "c12")]
         "C12" => (props::c12::BUILT, props::c12::run as fn(&mut vx::Report)),
+        #[cfg(feature = "c13")]
         "C13" => (props::c13::BUILT, props::c13::run as fn(&mut vx::Report)),
+        #[cfg(feature = "c14")]
         "C14" => (props::c14::BUILT, props::c14::run as fn(&mut vx::Report)),
+        #[cfg(feature = "c15")]
         "C15" => (props::c15::BUILT, props::c15::run as fn(&mut vx::Report)),
+        #[cfg(feature = "c16")]
         "C16" => (props::c16::BUILT, props::c16::run as fn(&mut vx::Report)),
+        #[cfg(feature = "c17")]
         "C17" => (props::c17::BUILT, props::c17::run as fn(&mut vx::Report)),
+        #[cfg(feature = "c18")]
         "C18" => (props::c18::BUILT, props::c18::run as fn(&mut vx::Report)),
+        #[cfg(feature = "c19")]
         "C19" => (props::c19::BUILT, props::c19::run as fn(&mut vx::Report)),
+        #[cfg(feature = "c20")]
         "C20" => (props::c20::BUILT, props::c20::run as fn(&mut vx::Report)),
+        #[cfg(feature = "c21")]
         "C21" => (props::c21::BUILT, props::c21::run as fn(&mut vx::Report)),
+        #[cfg(feature = "c23")]
         "C23" => (props::c23::BUILT, props::c23::run as fn(&mut vx::Report)),
+        #[cfg(feature = "c24")]
         "C24" => (props::c24::BUILT, props::c24::run as fn(&mut vx::Report)),
+        #[cfg(feature = "c25")]
         "C25" => (props::c25::BUILT, props::c25::run as fn(&mut vx::Report)),
+        #[cfg(feature = "c26")]
         "C26" => (props::c26::BUILT, props::c26::run as fn(&mut vx::Report)),
+        #[cfg(feature = "c27")]
         "C27" => (props::c27::BUILT, props::c27::run as fn(&mut vx::Report)),
+        #[cfg(feature = "c28")]
         "C28" => (props::c28::BUILT, props::c28::run as fn(&mut vx::Report)),
+        #[cfg(feature = "c30")]
         "C30" => (props::c30::BUILT, props::c30::run as fn(&mut vx::Report)),
         other => {
             eprintln!("unknown property id {other:?}");
